@@ -7,6 +7,16 @@ import subprocess
 import time
 
 VERIF = os.path.dirname(os.path.dirname(os.path.abspath(__file__)))
+# evidence/ and replays/ describe /repo's working tree.  A run against another checkout
+# (VERIF_REPO=<worktree carrying a seeded change>) must not overwrite them: its output goes
+# next to that checkout (or to VERIF_OUT).
+_repo = os.environ.get("VERIF_REPO")
+if os.environ.get("VERIF_OUT"):
+    OUT = os.environ["VERIF_OUT"]
+elif _repo and os.path.realpath(_repo) != os.path.realpath("/repo"):
+    OUT = os.path.join(os.path.dirname(os.path.realpath(_repo)), "verif_out")
+else:
+    OUT = VERIF
 REPO = os.environ.get("VERIF_REPO", "/repo")
 MAX_REPLAYS = 12
 
@@ -138,7 +148,7 @@ class Run:
         elif self.outcomes and len(self.outcomes) < self._require_outcomes:
             harness_fail = "vacuous exploration: a single distinct observed outcome"
 
-        rep_dir = os.path.join(VERIF, "replays", self.pid)
+        rep_dir = os.path.join(OUT, "replays", self.pid)
         if os.path.isdir(rep_dir):          # artefacts of earlier runs are stale
             for fn in os.listdir(rep_dir):
                 if fn.endswith(".json"):
@@ -191,8 +201,8 @@ class Run:
               "level": self.level, "coverage": cov,
               "assumptions": self.assumptions, "wall_s": round(wall, 3),
               "violations": len(seen_keys)}
-        os.makedirs(os.path.join(VERIF, "evidence"), exist_ok=True)
-        with open(os.path.join(VERIF, "evidence", self.pid + ".json"), "w") as f:
+        os.makedirs(os.path.join(OUT, "evidence"), exist_ok=True)
+        with open(os.path.join(OUT, "evidence", self.pid + ".json"), "w") as f:
             json.dump(ev, f, indent=1, sort_keys=True)
 
         for l in lines:
